@@ -76,6 +76,14 @@ def check_c15(args):
                     log(r["out"][-2000:])
                     raise ToolError("Pipeline.tla: model check failed")
                 mc_states += r["distinct"]
+    r = pipeline(1, 1, "none", "{}")            # no fault at all: the answer is complete under every schedule
+    if not r["ok"]:
+        log(r["out"][-2000:])
+        raise ToolError("Pipeline.tla (no fault): model check failed")
+    mc_states += r["distinct"]
+    r = pipeline(1, 1, "none", '{"DeactivateAfterSpawn"}')
+    if r["ok"] or "OkIsComplete is violated" not in r["out"]:
+        raise ToolError("Pipeline.tla with Dev = {DeactivateAfterSpawn} is not rejected: the model is vacuous")
     # the model is not vacuous: each deviation (a panic that looks like the end of the stream; a panic report
     # that is dropped when the channel is full) is rejected
     for dev in ('{"PanicLooksLikeEof"}', '{"PanicTrySend"}'):
@@ -134,8 +142,43 @@ def check_c15(args):
                 v.violation(dict(info, changed_tables=changed),
                             f"[{c['engine']}] `{c['sql']}` failed ({run['kind']} in {run['op']} at chunk {run['chunk']}) "
                             f"but table(s) {changed} changed")
+    # ---- free-running schedules: the same pipelines on a multi-threaded runtime (no fault): every run returns the
+    # complete answer (Pipeline.tla, FaultKind = "none"); statements are issued from the thread that drives the
+    # runtime and from worker tasks, with and without a 200 us hold between spawning an operator task and handing
+    # out its receiver (hook event spawn.spawned)
+    many = ["create table m(a int, b int)"] + [f"insert into m values ({i}, {i % 3})" for i in range(40)] + \
+           ["create table s(a int, b int)", "insert into s values " + ", ".join(f"({i}, {i * 2})" for i in range(0, 40))]
+    shapes = [("select a + 1 from m", 40), ("select m.a, s.b from m join s on s.a = m.a", 40),
+              ("select b, count(*), sum(a) from m group by b", 3), ("select a from m order by a desc limit 7", 7),
+              ("select count(*) from m join s on m.a < s.a", 1)]
+    mt_cases = []
+    for eng in ("mem", "disk"):
+        for sql, nrows in shapes:
+            for par, stall in ((1, 0), (1, 200), (4, 0)):
+                mt_cases.append({"id": f"mt{len(mt_cases)}", "engine": eng, "setup": many, "sql": sql,
+                                 "runs": (400 if big else 40) if stall == 0 else (60 if big else 12),
+                                 "workers": 8, "par": par, "stall_us": stall, "expect_rows": nrows})
+    mt_outs = run_sharded("mt", mt_cases, shards=4, tag="c15mt", timeout=1800, case_timeout=300)
+    mt_runs = 0
+    for c, o in zip(mt_cases, mt_outs):
+        info = {k: c[k] for k in ("engine", "sql", "par", "stall_us", "workers")}
+        if o.get("hang"):
+            v.violation(dict(info, result=o), f"[{c['engine']}] `{c['sql']}` on a multi-threaded runtime does not terminate")
+            continue
+        if "fatal" in o:
+            v.violation(dict(info, result=o), f"[{c['engine']}] multi-threaded runtime: {o['fatal'][:200]}")
+            continue
+        mt_runs += o["runs"] + 1
+        if not o["first_ok"] or o["first_rows"] != c["expect_rows"]:
+            v.violation(dict(info, result=o), f"[{c['engine']}] `{c['sql']}` on a multi-threaded runtime returns "
+                        f"{o['first_rows']} rows, the complete answer has {c['expect_rows']} (or the setup lost rows)")
+        elif o["bad"]:
+            v.violation(dict(info, result=o), f"[{c['engine']}] `{c['sql']}` on a multi-threaded runtime (issued from "
+                        f"{'the driving thread' if c['par'] == 1 else 'worker tasks'}, hold {c['stall_us']} us): "
+                        f"{len(o['bad'])} of {o['runs']} runs report success with an incomplete answer: {o['bad'][:3]}")
     rc = v.finish()
     write_evidence("C15", tier, seed, "fault_enumeration", {
+        "free_running_multithreaded_runs": mt_runs,
         "evaluations": runs, "distinct_nontrivial": len(nontriv),
         "rule": "for each of the statement shapes (scan/filter/projection, ORDER BY, LIMIT, TopN, hash / nested-loop / "
                 "merge join, hash / simple / sort aggregation, DISTINCT, INSERT..SELECT, INSERT VALUES, DELETE) over "
